@@ -34,10 +34,14 @@ RULE = (
     "with constants, tuples, int ops, nested DFGs, if/else, tail loops, calls, string constants, non-ASCII names, "
     "metadata) and hand-written builder scripts (order edges out of LoadConst / Call / LoadFunc nodes into nested "
     "DFGs, CFGs with control-flow edges, static const/function edges, rich metadata incl. a graph name, deep nesting, "
-    "multi-output operations with unused outputs, one wire feeding several ports), each rendered under several "
-    "render configurations (3 named palettes + a random custom palette, both name-qualification settings). "
+    "multi-output operations with unused outputs, one wire feeding several ports; seeded random generators of "
+    "non-local wires into nested DFGs/conditionals and of control-flow graphs with cross and back edges), each rendered under several "
+    "render configurations (3 named palettes + a random custom palette, both name-qualification settings, and "
+    "render_dot() without a configuration). "
     "Implementation observation = DOT source of Hugr.load_json(h.to_json()).render_dot(cfg) parsed back into the "
-    "RenderOut structure, compared with the Lean model run on the same JSON document; oracle = the property text "
+    "RenderOut structure, compared with the Lean model run on the same JSON document (the driver also evaluates the "
+    "decidable store hypotheses of the theorems, RenderCheck.hypsB, on every loaded store: a false verdict counts as a "
+    "divergence); oracle = the property text "
     "evaluated on h.render_dot(cfg).source of the original HUGR. Non-trivial = a HUGR with >= 6 nodes, >= 3 links and "
     ">= 1 node with children below the root; distinct by full spec. The corpus additionally validates the DOT parser "
     "on hand-written DOT texts."
@@ -62,6 +66,9 @@ ASSUMPTIONS = [
     "own snapshot tests expect `idivmod_u` for `arithmetic.int.idivmod_u<5>`)",
     "HTML-special characters (<, >, &) in operation names and metadata are outside the generator: render.py does not "
     "escape them (noted, not raised)",
+    "a truthy root metadata entry \"name\" that is not a string makes graphviz raise TypeError when .source is read "
+    "(render_dot itself returns): outside the quantifier (builder programs name graphs by strings); the model has the "
+    "error branch (Err.typeError, hypothesis GraphNameOk of render_succeeds) and the correspondence covers it",
 ]
 
 NAMED = ["default", "nb", "zx"]
@@ -374,6 +381,68 @@ def _s_nonlocal(v):
     return mod.hugr
 
 
+def _s_rand_cfg(v):
+    """a random control-flow graph: 2-way and 1-way blocks, forward, cross and back edges, several
+    predecessors of one block, branches to the exit; at the root or nested in a function body"""
+    from hugr import tys, val
+    from hugr.build.cfg import Cfg
+    from hugr.build.function import Module
+    from hugr.std.int import INT_T, DivMod
+
+    rng = random.Random(v)
+    nested = rng.random() < 0.5
+    if nested:
+        mod = Module()
+        f = mod.define_function("main", [tys.Bool, INT_T])
+        cfg = f.add_cfg(*f.inputs())
+    else:
+        cfg = Cfg(tys.Bool, INT_T)
+    budget = rng.randint(1, 6)
+    with cfg.add_entry() as entry:
+        b, i = entry.inputs()
+        entry.set_block_outputs(b, i)
+    todo = [entry[0], entry[1]]
+    blocks = []
+    exited = False
+    while todo:
+        port = todo.pop(rng.randrange(len(todo)))
+        r = rng.random()
+        if budget > 0 and (r < 0.6 or not blocks):
+            budget -= 1
+            with cfg.add_successor(port) as blk:
+                (x,) = blk.inputs()
+                if rng.random() < 0.4:
+                    x = blk.add(DivMod(x, x))[rng.randrange(2)]
+                if rng.random() < 0.6:
+                    blk.set_block_outputs(blk.load(rng.choice([val.TRUE, val.FALSE])), x)
+                    todo += [blk[0], blk[1]]
+                else:
+                    blk.set_single_succ_outputs(x)
+                    todo.append(blk[0])
+            blocks.append(blk)
+        elif r < 0.8 and blocks and (todo or exited):  # the exit must be branched to, else the CFG has no output types
+            cfg.branch(port, rng.choice(blocks))
+        else:
+            cfg.branch_exit(port)
+            exited = True
+    if nested:
+        f.set_outputs(cfg)
+        return mod.hugr
+    return cfg.hugr
+
+
+def _s_badname(v):
+    """a root whose "name" metadata entry is not a string: graphviz raises TypeError when the source text is
+    produced (falsy values give an unnamed graph) — correspondence only, outside the oracle's quantifier"""
+    from hugr import tys
+    from hugr.build.dfg import Dfg
+
+    d = Dfg(tys.Bool)
+    d.set_outputs(*d.inputs())
+    d.hugr[d.hugr.root].metadata["name"] = [5, ["x"], {"a": 1}, 2.5, True, 0, None, False, [], {}, 0.0, ""][v % 12]
+    return d.hugr
+
+
 SCRIPTS = {
     "order_const": _s_order_const,
     "order_call": _s_order_call,
@@ -386,6 +455,8 @@ SCRIPTS = {
     "cond_loop": _s_cond_loop,
     "single": _s_single,
     "nonlocal": _s_nonlocal,
+    "rand_cfg": _s_rand_cfg,
+    "badname": _s_badname,
 }
 SCRIPT_VARIANTS = 12
 
@@ -729,6 +800,10 @@ def _oracle(h, spec, st):
     st["with_metadata"] = sum(1 for n in nodes if h[n].metadata)
     st["sig_more_than_tracked"] = 0
     st["ext_ops"] = sum(1 for n in nodes if isinstance(h[n].op, ops.AsExtOp))
+    name = h[h.root].metadata.get("name")
+    if name and not isinstance(name, str):
+        st["nonstring_graph_name"] = 1
+        return fails  # ASSUMPTIONS: a graph name that is not a string is outside the quantifier
     before = _snapshot(h)
     erased = []
     for c in spec["configs"]:
@@ -897,7 +972,7 @@ def cases(rng, tier):
     n_mod, n_cfg, n_var = {"quick": (300, 2, 3), "thorough": (6000, 8, SCRIPT_VARIANTS)}.get(tier, (3000, 3, SCRIPT_VARIANTS))
     # hand-written builder scripts first
     for name in SCRIPTS:
-        if name == "nonlocal":
+        if name in ("nonlocal", "rand_cfg"):
             continue
         for v in range(n_var):
             allc = _all_configs(rng)
@@ -908,6 +983,9 @@ def cases(rng, tier):
         cs = allc if n_cfg >= len(allc) else rng.sample(allc, n_cfg)
         if i % 4 == 0:
             yield {"kind": "script", "name": "nonlocal", "v": rng.randrange(10**9), "configs": cs}
+            continue
+        if i % 8 == 1:
+            yield {"kind": "script", "name": "rand_cfg", "v": rng.randrange(10**9), "configs": cs}
             continue
         size = rng.choice([0, 1, 2, 3, 4, 6, 8, 10]) if i % 7 else rng.choice([12, 16])
         yield {"kind": "mod", "seed": rng.randrange(10**9), "size": size, "configs": cs}
@@ -940,7 +1018,13 @@ def _outs(obs):
 
 def compare(spec, impl_obs, model_obs):
     try:
-        return _canon(_outs(impl_obs)) == _canon(json.loads(model_obs))
+        m = json.loads(model_obs)
+        if isinstance(m, dict):
+            # the loaded store must satisfy the store hypotheses of the theorems (RenderCheck.hypsB)
+            if m.get("hyps") is not True:
+                return False
+            m = m["outs"]
+        return _canon(_outs(impl_obs)) == _canon(m)
     except ValueError:
         return False
 
